@@ -979,6 +979,12 @@ func extractRouting(repo, root string) error {
 	}
 	b.WriteString("/-- transport.go findMetadataTopic: the predicate handed to sort.Search and the final test, over the i-th topic's\nname `elem` and the requested name `target` -/\n")
 	fmt.Fprintf(&b, "def searchPred (elem target : String) : Bool := decide (%s)\ndef searchHit (elem target : String) : Bool := decide (%s)\n\n", spred, sfinal)
+	lf, err := leaderFirstOf(repo)
+	if err != nil {
+		return err
+	}
+	b.WriteString("/-- protocol/listoffsets (*Request).Broker: `part` = Leader of the topic's partition whose ID is the requested one (none: no\nsuch topic / partition), `bro` = id of the broker registered under an id, `zeroBroker` = ID of the zero Broker value -/\n")
+	fmt.Fprintf(&b, "def listOffsetsBroker (part : Option Int) (bro : Int → Option Int) (zeroBroker : Int := 0) : Int :=\n  %s\n\n", lf)
 	cmp, err := updateCompare(repo)
 	if err != nil {
 		return err
